@@ -200,16 +200,31 @@ def binding_demo(ctx, seed, full=True):
     recorded execution on which the design itself is wrong (spec and observations agree, the tables are NOT the canonical
     chain's: fabricated from a real stream, validated against the spec variant without the truncate) must come out as a
     violated invariant at the right place - otherwise the check itself is broken (Infra)."""
-    cfg, streams, _ = record(ctx, "reorg,crash", 2, 12, 8, "demo", seed)
-    if cfg is None:
-        raise Infra("binding demo: driver failed")
-    base = streams[0]
+    # the demonstration must not depend on the luck of one seed: record, take a stream that is rich enough, and if there is
+    # none (or no material for the fabricated execution), record again with the next seed and more blocks
+    def shape(st):
+        imports = [i for i, e in enumerate(st) if e["e"] == "Import" and e["trunk"] and len(e["E"]) > 9]
+        queries = [i for i, e in enumerate(st) if e["e"] == "Q" and len(e["res"]) > 1]
+        apis = [i for i, e in enumerate(st) if e["e"] == "Api" and e["status"] == 200 and e["cnt"] > 0]
+        return imports, queries, apis
+
+    tried = []
+    for attempt in range(8):
+        cfg, streams, _ = record(ctx, "reorg,crash", 2, 12 + 4 * attempt, 8, "demo%d" % attempt, seed + 7907 * attempt)
+        if cfg is None:
+            raise Infra("binding demo: driver failed")
+        rich = [st for st in streams if len(shape(st)[0]) >= 3 and shape(st)[1] and shape(st)[2]]
+        has_fab = any(fabricate_no_truncate(cfg, st)[0] for st in streams)
+        tried.append("%d rich streams, fabricable=%s" % (len(rich), has_fab))
+        if rich and has_fab:
+            break
+    else:
+        raise Infra("binding demo: eight recordings in a row without a usable stream (%s)" % "; ".join(tried))
+    if attempt:
+        ctx.cov["binding_demo_recordings"] = attempt + 1
+    base = min(rich, key=len)            # the shortest stream that is rich enough keeps the demonstration cheap
     out = ctx.tmp("demo-variants")
-    imports = [i for i, e in enumerate(base) if e["e"] == "Import" and e["trunk"] and len(e["E"]) > 9]
-    queries = [i for i, e in enumerate(base) if e["e"] == "Q" and len(e["res"]) > 1]
-    apis = [i for i, e in enumerate(base) if e["e"] == "Api" and e["status"] == 200 and e["cnt"] > 0]
-    if len(imports) < 3 or not queries or not apis:
-        raise Infra("binding demo: recorded stream too poor (%d imports, %d queries, %d api calls)" % (len(imports), len(queries), len(apis)))
+    imports, queries, apis = shape(base)
     ok, hwm, ln, r = ctx.validate_trace(SUB, TRACE_SPEC, _write(out, "unmodified", [cfg] + base), timeout=600)
     if not ok:
         # the code under test already deviates on the demo stream: nothing can be demonstrated on it; the main
